@@ -274,6 +274,24 @@ def _post_o2m_unlink(rels, ops):
     return False
 
 
+def _post_o2m_delete_parent(rels, ops):
+    """does the history delete the FLUSHED parent of a surviving member of a post_update one-to-many collection
+    (known finding C30-post-update-o2m-delete-parent-keeps-fk: whether the member's key is cleared depends on
+    the order the topological sort happens to produce)?"""
+    bad = {r[0] for r in rels if r[1] == 0 and r[4] and r[5] >> 2 & 1}
+    if not bad:
+        return False
+    m = Mirror(rels)
+    for op in ops:
+        op = [x if x != [] else None for x in op]
+        if not m.ok(op):
+            continue
+        if op[0] == 5 and any(m.st.get(c_) == 2 and fk.get(r_) == op[1] for c_, fk in m.rowfk.items() for r_ in bad):
+            return True
+        m.do(op)
+    return False
+
+
 def _rand_history(rng, ncls, rels, nops):
     m = Mirror(rels)
     ops = []
@@ -487,6 +505,43 @@ def _nat_history(rng, n, nops):
     return ops
 
 
+def _nat_stale_collection(n, ops, backref):
+    """the known finding: a persistent parent whose key has an unflushed change gets its not yet loaded collection
+    loaded by a user-level access (p.children.append/remove/contains): the lazy load queries with the NEW key and
+    finds nothing, so the flushed members are missing from the collection and the key change is not propagated to them"""
+    if not backref:
+        return False
+    m = NatMirror(n)
+    loaded, cpar, dbpar = set(), {}, {}
+    for op in ops:
+        op = [x if x != [] else None for x in op]
+        if not m.ok(op):
+            continue
+        t = op[0]
+        pend = getattr(m, "pending", set())
+        if t == 2:
+            old = cpar.get(op[1])
+            if (op[1] + (op[2] or 0)) % 2 == 0 or op[2] is None and old is None:
+                for q in (old, op[2]):
+                    if q is not None and q in pend:
+                        loaded.add(q)  # a backref event on a pending parent initialises its collection
+            else:
+                acc = []
+                if old is not None and (op[2] is None or old != op[2]):
+                    acc.append(old)
+                if op[2] is not None:
+                    acc.append(op[2])
+                for q in acc:
+                    if q not in loaded and q not in pend and m.key[q] != m.old[q] and q in dbpar.values():
+                        return True
+                    loaded.add(q)
+            cpar[op[1]] = op[2]
+        elif t == 6:
+            dbpar = {k: v for k, v in cpar.items() if v is not None}
+        m.do(op)
+    return False
+
+
 def _nat_directed(n):
     """a parent with two flushed children; every single key column changed on its own, then pairs of columns"""
     out = []
@@ -644,8 +699,11 @@ def _nat_impl(c):
 
 def _finish(cases):
     for c in cases:
-        if c["in"][0] != 7 and c.get("model", True) and _post_o2m_unlink(c["in"][0], c["in"][1]):
-            c["model"] = False  # the implementation deviates there (known finding); oracle only
+        if c["in"][0] != 7 and c.get("model", True) and (_post_o2m_unlink(c["in"][0], c["in"][1])
+                                                          or _post_o2m_delete_parent(c["in"][0], c["in"][1])):
+            c["model"] = False  # the implementation deviates there (known findings); oracle only
+        if c["in"][0] == 7 and c.get("model", True) and _nat_stale_collection(c["in"][1], c["in"][2], (c.get("nat") or {}).get("backref", True)):
+            c["model"] = False  # known finding C30-pk-change-lazy-collection-new-key; oracle only
     return cases
 
 
@@ -836,6 +894,11 @@ def impl(c):
                                     j_ = next((j for j, y in objs.items() if y is x_), None)
                                     if j_ in alive:
                                         want.add((i_, k_, j_))
+                for row_ in snap[0]:
+                    for i_, v_ in row_[3]:
+                        if v_ >= 1000000 and flush_viol is None:
+                            flush_viol = "after flush %d the foreign key column f%d of object %d references a row that no longer exists" % (
+                                len(snaps), i_, row_[0])
                 got = set(tuple(x) for x in snap[1])
                 if got != want and flush_viol is None:
                     flush_viol = "after flush %d the secondary rows are %s, the many-to-many members in memory %s" % (
@@ -944,6 +1007,11 @@ def oracle(c, obs):
 
 def match_finding(c, what):
     if c["in"][0] == 7:
+        if (_nat_stale_collection(c["in"][1], c["in"][2], (c.get("nat") or {}).get("backref", True))
+                and (what.startswith("child ") or what.startswith("parent ")
+                     # the pending removal of a flushed member is replayed on the wrongly loaded (empty) collection
+                     or "ValueError: list.remove" in what)):
+            return "C30-pk-change-lazy-collection-new-key"
         return None
     rels, ops = c["in"]
     orphan = any(r[1] == 0 and r[5] >> 1 & 1 for r in rels)
@@ -951,6 +1019,8 @@ def match_finding(c, what):
         return "C30-pending-orphan-reparented-not-inserted"
     if _post_o2m_unlink(rels, ops) and ("foreign key column" in what or "collection c" in what or "parent along" in what):
         return "C30-post-update-o2m-remove-keeps-fk"
+    if _post_o2m_delete_parent(rels, ops) and "references a row that no longer exists" in what:
+        return "C30-post-update-o2m-delete-parent-keeps-fk"
     if c.get("raw") and "collection c" in what:
         # a delete issued after the object was re-attached to a collection in the same flush window
         dirty = set()
